@@ -449,7 +449,39 @@ pub fn replay(fctx: &fuzz::Ctx, bin: &str, cases: &[Value], seed: u64, reps: usi
     CAP_U63.with(|c| c.set(false));
 }
 
+// ---- recorded runs for Trace_Cli.tla: what was asked, what the process did ---------------------------------------
+thread_local! {
+    static CLI_TRACE: std::cell::RefCell<Vec<Value>> = const { std::cell::RefCell::new(Vec::new()) };
+    static CUR_RUN: std::cell::RefCell<Option<(i32, bool, bool, bool, bool)>> = const { std::cell::RefCell::new(None) };
+    static CUR_SIGS: std::cell::RefCell<Vec<String>> = const { std::cell::RefCell::new(Vec::new()) };
+}
+
+fn note_run(kind: &str, err_kind: &str, code: i32, out: &str, err: &str, timed_out: bool) {
+    CLI_TRACE.with(|t| t.borrow_mut().push(json!({"ev":"Invoke","kind":kind,"err":err_kind})));
+    CUR_RUN.with(|r| *r.borrow_mut() = Some((code, !out.trim().is_empty(), !err.trim().is_empty(), err.contains("panicked at"), timed_out)));
+    CUR_SIGS.with(|s| s.borrow_mut().clear());
+}
+
+fn note_sig(sig: &str) { CUR_SIGS.with(|s| s.borrow_mut().push(sig.to_string())); }
+
+fn finish_case() {
+    let Some((code, printed, stderr, panic, timed_out)) = CUR_RUN.with(|r| r.borrow_mut().take()) else { return };
+    let sigs = CUR_SIGS.with(|s| std::mem::take(&mut *s.borrow_mut()));
+    // the harness's independent readers decided these two (a run that did not exit counts as a panic: no outcome at all)
+    let wellformed = !sigs.iter().any(|s| s.contains("is not one") || s.contains("not well-formed") || s.contains("nothing printed"));
+    let faithful = !sigs.iter().any(|s| s.contains("differs") || s.contains("does not carry"));
+    CLI_TRACE.with(|t| t.borrow_mut().push(json!({"ev":"Exit","code0":code == 0,"printed":printed,"stderr":stderr,"panic":panic || timed_out,
+                                                 "wellformed":wellformed,"faithful":faithful})));
+}
+
+pub fn take_trace() -> Vec<Value> { CLI_TRACE.with(|t| std::mem::take(&mut *t.borrow_mut())) }
+
 fn good_case(fctx: &fuzz::Ctx, bin: &str, c: &Value, rng: &mut StdRng, rep: &mut Report) {
+    good_case_inner(fctx, bin, c, rng, rep);
+    finish_case();
+}
+
+fn good_case_inner(fctx: &fuzz::Ctx, bin: &str, c: &Value, rng: &mut StdRng, rep: &mut Report) {
     let fam = c["fam"].as_str().unwrap();
     let id = game_of(fam);
     let name = format!("generic:{id}");
@@ -514,8 +546,10 @@ fn good_case(fctx: &fuzz::Ctx, bin: &str, c: &Value, rng: &mut StdRng, rep: &mut
     }
     let (code, out, err, timed_out) = run_cli(bin, &args);
     served.stop();
+    note_run("good", "none", code, &out, &err, timed_out);
     let case = json!({"case": c, "game": id, "args": args[.. 12], "script": script});
     let mut fail = |sig: String, detail: Value| {
+        note_sig(&sig);
         rep.violation("C19", &sig, json!({"kind":"cli","case":case,"detail":detail,"exit":code,
                                           "stdout": out.chars().take(1500).collect::<String>(), "stderr": err.chars().take(600).collect::<String>()}));
     };
@@ -592,6 +626,11 @@ fn good_case(fctx: &fuzz::Ctx, bin: &str, c: &Value, rng: &mut StdRng, rep: &mut
 }
 
 fn bad_case(bin: &str, c: &Value, rep: &mut Report) {
+    bad_case_inner(bin, c, rep);
+    finish_case();
+}
+
+fn bad_case_inner(bin: &str, c: &Value, rep: &mut Report) {
     let fmt = c["fmt"].as_str().unwrap();
     // an address nobody listens on (a bound-then-dropped UDP port)
     let dead_port = {
@@ -618,6 +657,7 @@ fn bad_case(bin: &str, c: &Value, rep: &mut Report) {
     };
     let args: Vec<String> = args.iter().map(|s| s.to_string()).collect();
     let (code, out, err, timed_out) = run_cli(bin, &args);
+    note_run("bad", c["err"].as_str().unwrap(), code, &out, &err, timed_out);
     let mut fail = |sig: String| {
         rep.violation("C19", &sig, json!({"kind":"cli-error","case":c,"args":args,"exit":code,"stdout":out.chars().take(500).collect::<String>(),
                                           "stderr":err.chars().take(800).collect::<String>()}));
